@@ -48,6 +48,7 @@ type connConfig struct {
 	Modern bool   `json:"modern"`
 	Auth   bool   `json:"auth"`
 	Big    []int  `json:"big"`
+	Spread bool   `json:"spread"` // one (version, compression) per session, round-robin, instead of all of them
 }
 
 // ---------------------------------------------------------------------------------------------- raw side
@@ -55,8 +56,17 @@ type connConfig struct {
 // tapConn records what is written to the connection.
 type tapConn struct {
 	net.Conn
-	mu  sync.Mutex
-	out bytes.Buffer
+	mu       sync.Mutex
+	out      bytes.Buffer
+	closeErr error // returned by Close after the transport has been closed (a TLS connection after the peer is gone does this)
+}
+
+func (t *tapConn) Close() error {
+	err := t.Conn.Close()
+	if t.closeErr != nil {
+		return t.closeErr
+	}
+	return err
 }
 
 func (t *tapConn) Write(p []byte) (int, error) {
@@ -400,6 +410,11 @@ func runConnSession(t *testing.T, cfg connConfig, sess connSession, v primitive.
 		defer cancel()
 		c0, s0 := net.Pipe()
 		ctap, stap := &tapConn{Conn: c0}, &tapConn{Conn: s0}
+		if variant%4 == 3 {
+			// every fourth session: transports whose Close reports an error (the teardown must still be complete)
+			ctap.closeErr = fmt.Errorf("close_notify: broken pipe")
+			stap.closeErr = fmt.Errorf("close_notify: broken pipe")
+		}
 		var creds *client.AuthCredentials
 		if cfg.Auth {
 			creds = &client.AuthCredentials{Username: "u", Password: "p"}
@@ -781,6 +796,20 @@ func runConnSession(t *testing.T, cfg connConfig, sess connSession, v primitive.
 					writeUnits(rawC, st.Pack, reqFrames)
 				}
 				c2sUnits = append(c2sUnits, st.Pack...)
+			case "c-send-dup":
+				// C09 / C10: the application re-uses the stream id of a request still awaiting its response: refused, nothing disturbed
+				if cl != nil && variant%2 == 1 {
+					id := st.Ids[0]
+					f := connRequest(v, id, false, variant+1)
+					f.Header.StreamId = streamOf[id]
+					if r, err := cl.Send(f); err == nil {
+						bad("C10|duplicate-stream-id-accepted", fmt.Sprintf("step %d: a second Send with stream id %d was accepted (request %d is still awaiting its response); it got stream id %d", si, streamOf[id], id, r.StreamId()))
+					}
+					synctest.Wait()
+					if r := inflight[id]; r.IsDone() {
+						bad("C10|duplicate-send-completed-the-original", fmt.Sprintf("step %d: the refused duplicate Send completed the original request %d (stream id %d): err=%v", si, id, streamOf[id], r.Err()))
+					}
+				}
 			case "s-read":
 				u := c2sUnits[0]
 				c2sUnits = c2sUnits[1:]
@@ -820,7 +849,15 @@ func runConnSession(t *testing.T, cfg connConfig, sess connSession, v primitive.
 				}
 			case "s-send":
 				for k, id := range st.Ids {
-					rspFrames[id] = connResponse(v, streamOf[id], id, big[id] && sv == nil, variant+id+k)
+					switch {
+					case id < 0: // C10: an event pushed by the server (stream id -1)
+						rspFrames[id] = frame.NewFrame(v, -1, &message.StatusChangeEvent{ChangeType: primitive.StatusChangeTypeDown,
+							Address: &primitive.Inet{Addr: net.IPv4(10, 0, 0, byte(-id)), Port: 9042}})
+					case id > 100: // C10: a response for a stream id no request carries
+						rspFrames[id] = connResponse(v, int16(60+id-100), id, false, variant+id+k) // (fits the one-byte stream ids of v2)
+					default:
+						rspFrames[id] = connResponse(v, streamOf[id], id, big[id] && sv == nil, variant+id+k)
+					}
 					rspOrder = append(rspOrder, id)
 				}
 				if sv != nil {
@@ -847,6 +884,29 @@ func runConnSession(t *testing.T, cfg connConfig, sess connSession, v primitive.
 						id := rspOrder[nRspGot]
 						var f *frame.Frame
 						var err error
+						if id < 0 { // an event: on the event channel, equal to what was pushed
+							synctest.Wait()
+							select {
+							case ev, ok := <-cl.EventChannel():
+								if !ok || ev == nil {
+									bad("C10|event-channel-closed", fmt.Sprintf("step %d: the event channel is closed", si))
+								} else if same, why := sameFrame(ev, rspFrames[id]); !same {
+									bad("C10|event-differs", fmt.Sprintf("step %d: event %d arrived different from what was pushed: %s", si, -id, why))
+								}
+							default:
+								bad("C10|event-not-delivered", fmt.Sprintf("step %d: event %d pushed by the server is not on the client's event channel", si, -id))
+							}
+							nRspGot++
+							continue
+						}
+						if id > 100 { // a response nobody waits for: dropped, the connection lives on
+							synctest.Wait()
+							if cl.IsClosed() {
+								bad("C10|spurious-response-closed-connection", fmt.Sprintf("step %d: a response for an unknown stream id closed the connection", si))
+							}
+							nRspGot++
+							continue
+						}
 						if !do(func() { f, err = cl.Receive(inflight[id]) }) || err != nil || f == nil {
 							bad("client-receive", fmt.Sprintf("step %d: request %d did not get its response (err=%v, frame=%v)", si, id, err, f != nil))
 							break
@@ -875,6 +935,28 @@ func runConnSession(t *testing.T, cfg connConfig, sess connSession, v primitive.
 							bad("response-differs", fmt.Sprintf("step %d: response %d arrived different from what was sent: %s", si, id, why))
 						}
 					}
+				}
+			}
+		}
+		// C10: exactly once: no request holds a frame nobody accounted for, no event is left over
+		if cl != nil && !faulted && len(viol) == 0 {
+			synctest.Wait()
+			for id, r := range inflight {
+				select {
+				case f, ok := <-r.Incoming():
+					if ok && f != nil {
+						bad("C10|extra-frame-in-request", fmt.Sprintf("request %d (stream %d) holds a frame beyond its response: %v", id, r.StreamId(), f.Header))
+					}
+				default:
+				}
+			}
+			if ch := cl.EventChannel(); ch != nil {
+				select {
+				case ev, ok := <-ch:
+					if ok && ev != nil {
+						bad("C10|extra-event", fmt.Sprintf("an event nobody pushed (or a response) is on the event channel: %v", ev.Header))
+					}
+				default:
 				}
 			}
 		}
@@ -994,9 +1076,14 @@ func TestConnReplay(t *testing.T) {
 	distinct := map[string]bool{}
 	n := 0
 	for si, sess := range sessions {
+		combo := 0
 		for _, v := range connVersions(cfg.Modern) {
 			for _, comp := range []primitive.Compression{primitive.CompressionNone, primitive.CompressionLz4, primitive.CompressionSnappy} {
 				if !v.SupportsCompression(comp) || (cfg.Modern && comp == primitive.CompressionSnappy) {
+					continue
+				}
+				combo++
+				if cfg.Spread && (si+combo)%7 != 0 {
 					continue
 				}
 				n++
